@@ -9,7 +9,7 @@ use samlang_checker::{
 use samlang_errors::{CompileTimeError, ErrorSet};
 use samlang_heap::{Heap, ModuleReference};
 use std::{
-  collections::{HashMap, HashSet},
+  collections::{BTreeSet, HashMap, HashSet},
   sync::Arc,
 };
 
@@ -22,6 +22,10 @@ pub struct ServerState {
   pub(super) checked_modules: HashMap<ModuleReference, Module<Arc<Type>>>,
   pub(super) global_cx: GlobalSignature,
   pub(super) errors: HashMap<ModuleReference, Vec<CompileTimeError>>,
+  /// The type errors found while checking each module. Such an error can be located in another
+  /// module (one that the checked module depends on), so `errors`, which is keyed by location,
+  /// has to be put together from the results of all modules.
+  type_errors_by_checked_module: HashMap<ModuleReference, Vec<CompileTimeError>>,
 }
 
 impl ServerState {
@@ -47,18 +51,25 @@ impl ServerState {
         })
         .collect::<HashMap<_, _>>();
       let dep_graph = DependencyGraph::new(&parsed_modules);
-      let (checked_modules, global_cx) = type_check_sources(&parsed_modules, &mut error_set);
-      let errors = error_set.group_errors();
-      ServerState {
+      // The builtin signature, then one signature per module: what `update` maintains.
+      let (_, mut global_cx) = type_check_sources(&HashMap::new(), &mut ErrorSet::new());
+      for (mod_ref, parsed) in &parsed_modules {
+        global_cx.insert(*mod_ref, build_module_signature(*mod_ref, parsed));
+      }
+      let all_modules = parsed_modules.keys().copied().collect::<HashSet<_>>();
+      let mut state = ServerState {
         heap,
         enable_profiling,
         string_sources,
         parsed_modules,
         dep_graph,
-        checked_modules,
+        checked_modules: HashMap::new(),
         global_cx,
-        errors,
-      }
+        errors: HashMap::new(),
+        type_errors_by_checked_module: HashMap::new(),
+      };
+      state.check_and_collate_errors(error_set, &all_modules, &all_modules);
+      state
     })
   }
 
@@ -68,9 +79,9 @@ impl ServerState {
   /// - Dependency graph updated
   /// - recheck_set is the conservative estimate of moduled need to recheck
   /// - reparsed_set is the set of modules whose syntax errors are already in error_set
-  fn recheck(
+  fn check_and_collate_errors(
     &mut self,
-    mut error_set: ErrorSet,
+    error_set: ErrorSet,
     recheck_set: &HashSet<ModuleReference>,
     reparsed_set: &HashSet<ModuleReference>,
   ) {
@@ -88,28 +99,59 @@ impl ServerState {
         })
       })
       .collect();
+    for rechecked_module in recheck_set {
+      // Including the modules of the set that do not exist (anymore).
+      self.type_errors_by_checked_module.remove(rechecked_module);
+    }
     for (mod_ref, checked, local_errors) in results {
       self.checked_modules.insert(mod_ref, checked);
-      error_set.merge(local_errors);
+      self
+        .type_errors_by_checked_module
+        .insert(mod_ref, local_errors.group_errors().into_values().flatten().collect());
     }
 
     // Collating Errors
-    let mut grouped_errors = error_set.group_errors();
-    for rechecked_module in recheck_set {
-      if !grouped_errors.contains_key(rechecked_module) {
-        grouped_errors.insert(*rechecked_module, Vec::new());
-      }
+    // The errors of a module are the syntax errors of its text and the type errors located in it.
+    // A type error located in a module can come from the check of any module that depends on it,
+    // rechecked this time or not, and the same error can come from more than one of them.
+    let mut syntax_errors = error_set.group_errors();
+    let mut type_errors = HashMap::<ModuleReference, BTreeSet<CompileTimeError>>::new();
+    for e in self.type_errors_by_checked_module.values().flatten() {
+      type_errors.entry(e.location.module_reference).or_default().insert(e.clone());
     }
-    for (mod_ref, mut mod_scoped_errors) in grouped_errors {
-      // A module that is rechecked without being reparsed keeps its syntax errors.
-      if !reparsed_set.contains(&mod_ref)
-        && let Some(old_errors) = self.errors.remove(&mod_ref)
-      {
-        mod_scoped_errors.extend(old_errors.into_iter().filter(|e| e.is_syntax_error()));
-        mod_scoped_errors.sort();
-      }
+    let mut old_errors = std::mem::take(&mut self.errors);
+    let modules_with_errors = self
+      .parsed_modules
+      .keys()
+      .chain(type_errors.keys())
+      .copied()
+      .collect::<HashSet<_>>();
+    for mod_ref in modules_with_errors {
+      let mut mod_scoped_errors = if reparsed_set.contains(&mod_ref) {
+        syntax_errors.remove(&mod_ref).unwrap_or_default()
+      } else {
+        // A module that is not reparsed keeps the syntax errors of its text.
+        old_errors
+          .remove(&mod_ref)
+          .unwrap_or_default()
+          .into_iter()
+          .filter(|e| e.is_syntax_error() && self.parsed_modules.contains_key(&mod_ref))
+          .collect()
+      };
+      mod_scoped_errors.extend(type_errors.remove(&mod_ref).unwrap_or_default());
+      mod_scoped_errors.sort();
       self.errors.insert(mod_ref, mod_scoped_errors);
     }
+  }
+
+  /// Same preconditions as `check_and_collate_errors`.
+  fn recheck(
+    &mut self,
+    error_set: ErrorSet,
+    recheck_set: &HashSet<ModuleReference>,
+    reparsed_set: &HashSet<ModuleReference>,
+  ) {
+    self.check_and_collate_errors(error_set, recheck_set, reparsed_set);
 
     // GC
     samlang_profiling::measure_time(self.enable_profiling, "GC", || {
